@@ -198,14 +198,18 @@ class DBHandler:
                 (query, query_parameter) = await self._execute_queue.get()
 
                 try:
-                    await self.connection.execute(query, query_parameter)
-                    await self.connection.commit()
-                except aiosqlite.OperationalError:
-                    logger.warning(
-                        f"Could not log message for {query_parameter[5]} to database. Retrying ..."
-                    )
-                    # TODO: This could lead to an infinite loop when there are recurring OperationalErrors!
-                    await self._execute_queue.put((query, query_parameter))
+                    # A failed write is repeated in place: putting the query back into the queue
+                    # would store it behind the rows of later messages.
+                    while True:
+                        try:
+                            await self.connection.execute(query, query_parameter)
+                            await self.connection.commit()
+                            break
+                        except aiosqlite.OperationalError:
+                            logger.warning(
+                                f"Could not log message for {query_parameter[5]} to database. Retrying ..."
+                            )
+                            # TODO: This could lead to an infinite loop when there are recurring OperationalErrors!
                 finally:
                     # Inform the the queue that the query was fully processed to track progress
                     self._execute_queue.task_done()
